@@ -618,6 +618,8 @@ impl<D: Distance> Writer<D> {
                 self.index,
                 &mut descendants,
                 options.available_memory.unwrap_or(usize::MAX),
+                // the sample must not fit in a single descendant, otherwise we would never split it
+                options.split_after.unwrap_or(self.dimensions).saturating_add(1),
             )?;
             let frozen_reader = FrozzenReader {
                 leafs: &leafs,
@@ -693,6 +695,7 @@ impl<D: Distance> Writer<D> {
                 options
                     .available_memory
                     .map_or(usize::MAX, |memory| (memory as f64 * 2.0 / 3.0).floor() as usize),
+                0,
             )?;
             let frozzen_reader =
                 FrozzenReader { leafs: &leafs, trees: &immutable_tree_nodes, concurrent_node_ids };
